@@ -584,6 +584,28 @@ pub fn check_signal_reload(_c: &u8) -> Outcome {
             if connect(None).await.is_ok() {
                 return Err(("c17-reload-unauthenticated-client-accepted".to_string(), "a client without a certificate was accepted by a server with a client CA".to_string()));
             }
+            // 4. a rotation done the way deployment tools do it: the new files are written elsewhere, carry an OLD modification time
+            //    (cp -p, rsync -t, tar x, a certificate issued earlier on another host, a roll-back) and are renamed into place
+            let l3 = leaf(3);
+            let old = std::time::SystemTime::now() - std::time::Duration::from_secs(3 * 3600);
+            for (path, content) in [(&cert_path, &l3.0), (&key_path, &l3.1), (&cca_path, &client_cas[0].pem)] {
+                let tmp = format!("{}.new", path);
+                std::fs::write(&tmp, content).unwrap();
+                let f = std::fs::File::options().write(true).open(&tmp).unwrap();
+                f.set_modified(old).unwrap();
+                drop(f);
+                std::fs::rename(&tmp, path).unwrap();
+            }
+            usr1().await?;
+            if !wait_leaf(l3.2.clone(), client_paths[0].clone()).await {
+                return Err((
+                    "c17-signal-reload-not-applied:renamed-old-mtime".to_string(),
+                    "new identity and client CA files were renamed into place carrying modification times three hours in the past (as cp -p / rsync -t / a roll-back produce); 5 s after SIGUSR1 new handshakes still see the previous identity / client CA".to_string(),
+                ));
+            }
+            if connect(Some(&client_paths[1])).await.is_ok() {
+                return Err(("c17-reload-unauthenticated-client-accepted".to_string(), "after the client CA was rolled back through SIGUSR1 a certificate under the CA that was just removed is still accepted".to_string()));
+            }
             Ok(())
         }
         .await;
